@@ -1,5 +1,6 @@
 (** C06 - soundness of the positive-semidefiniteness certificate of C06/Dy.v. *)
-From Coq Require Import List ZArith Bool Arith Reals Lra Lia.
+From Coq Require Import List ZArith Bool Arith Reals Lra Lia Floats.
+From Flocq Require Import Core BinarySingleNaN.
 From LinfaVerif Require Import C06.Dy.
 Import ListNotations.
 Local Open Scope R_scope.
@@ -231,4 +232,11 @@ Proof.
     - apply (sumn_diag n (fun j => dyR delta * (x j * x j))). exact Hi.
     - intros j _. destruct (i =? j)%nat eqn:Eq; [apply Nat.eqb_eq in Eq; subst; lra|lra]. }
   rewrite D in P. lra.
+Qed.
+
+(** the dyadic pair read off a finite float is its real value (Flocq's SF2R of the SpecFloat image) *)
+Lemma dy_of_value x : dyR (dy_of x) = SF2R radix2 (Prim2SF x).
+Proof.
+  unfold dy_of. destruct (Prim2SF x) as [s|s| |s m e]; simpl; try (unfold dyR; simpl; lra).
+  unfold dyR, F2R. simpl. rewrite bpow_powerRZ. simpl. destruct s; reflexivity.
 Qed.
